@@ -15,6 +15,8 @@ MODULE = "MC_sched.tla"
 
 
 def job(j):
+    if j.get("kind") == "introspect":
+        return introspect_job(j)
     if j.get("r3"):
         import schedtrace
         return schedtrace.job(j)
@@ -52,6 +54,73 @@ def job(j):
             "extra": {"schedules_with_model_deviation": st["dev"], "schedules_with_2plus_pending": st["multi"]}}
 
 
+INTRO_SDL = """
+directive @vis(n: Int) on FIELD_DEFINITION | ARGUMENT_DEFINITION | ENUM_VALUE | INPUT_FIELD_DEFINITION | OBJECT | ENUM
+enum E @vis(n: 6) { X @vis(n: 1)  Y }
+input In { a: Int @vis(n: 2)  b: Int = 3 }
+type T @vis(n: 3) { s(x: Int @vis(n: 4), y: Int): String @vis(n: 5)  t: T  old: Int @deprecated }
+type Query { o: T  e(i: In, v: E): E  l: [T!] }
+"""
+INTRO_Q = """{ __schema { types { kind name fields(includeDeprecated: true) { name args { name defaultValue type { kind name } } type { kind name ofType { kind name } } }
+  inputFields { name defaultValue } enumValues(includeDeprecated: true) { name } } directives { name args { name } } }
+  t: __type(name: "T") { name fields { name } }  i: __type(name: "In") { inputFields { name } } }"""
+
+
+def introspect_job(j):
+    """Introspection requests are requests too: with a directive whose on_introspection hook passes, hides, raises (a plain
+    exception) or suspends depending on the request's context, the answer must be the same under the 2x2x2 concurrency options."""
+    import asyncio
+    import json as _json
+    import base
+    from base import main_loop, unique_schema_name
+    from tartiflette.resolver.default import sync_arguments_coercer
+    t = base.tartiflette()
+    engines = []
+    for lc in (True, False):
+        for pc in (True, False):
+            for sync in (False, True):
+                sn = unique_schema_name("intro")
+
+                @t.Directive("vis", schema_name=sn)
+                class Vis:
+                    async def on_introspection(self, directive_args, next_directive, introspected_element, ctx, info):
+                        n = directive_args.get("n")
+                        ctx = ctx or {}
+                        for _ in range(ctx.get("yield", {}).get(n, 0)):
+                            await asyncio.sleep(0)
+                        if n in ctx.get("hide", ()):
+                            return None
+                        if n in ctx.get("boom", ()):
+                            raise KeyError("vis")
+                        return await next_directive(introspected_element, ctx, info)
+                kw = {"coerce_list_concurrently": lc, "coerce_parent_concurrently": pc}
+                if sync:
+                    kw["custom_default_arguments_coercer"] = sync_arguments_coercer
+                engines.append(((lc, pc, sync), main_loop().run(t.create_engine(INTRO_SDL, schema_name=sn, **kw))))
+    contexts = [{}, {"hide": (1, 2, 5)}, {"hide": (3,)}, {"yield": {1: 2, 4: 1, 5: 3}}, {"boom": (2,)}, {"boom": (4,)}, {"boom": (5,), "yield": {5: 1}}, {"boom": (1, 6)}, {"boom": (3,)}]
+    viol, n = [], 0
+    for ctx in contexts:
+        answers = []
+        for flags, eng in engines:
+            n += 1
+            try:
+                resp = main_loop().run(eng.execute(INTRO_Q, context=dict(ctx)))
+            except BaseException as e:
+                resp = {"__raised__": repr(e)}
+            try:
+                # (which errors are reported may differ: sequential execution stops at the first failure that nulls `data`; C08 speaks of `data` and of nulls being explained)
+                canon = _json.dumps({"data": resp.get("data"), "has_errors": bool(resp.get("errors"))}, sort_keys=True, allow_nan=False)
+            except (TypeError, ValueError) as e:
+                canon = "NOT-JSON: %r" % (resp,)
+            answers.append((flags, canon))
+        ref = answers[0][1]
+        for flags, canon in answers:
+            if canon != ref or canon.startswith("NOT-JSON") or "__raised__" in canon:
+                genrun.add_viol(viol, ({"kind": "introspection-differs-by-concurrency", "context": _json.dumps(ctx, sort_keys=True, default=list), "first": ("not JSON / raised" if canon.startswith("NOT-JSON") or "__raised__" in canon else "differs from (True, True, False)")},
+                                       {"flags": list(flags), "answer": canon[:3000], "reference": ref[:3000]}))
+    return {"job": j, "tlc": [], "evaluations": n, "distinct": [], "samples": [], "violations": viol, "extra": {"introspection_requests_under_8_concurrency_options": n}}
+
+
 def main(argv, pid=PID, cfgs=None, serial=False):
     rep = common.Report(pid)
     rep.rule = ("cases = (request, concurrency flags, complete schedule): every order in which the pending resolvers can be released, "
@@ -63,6 +132,7 @@ def main(argv, pid=PID, cfgs=None, serial=False):
     thorough = common.tier() == "thorough"
     if pid == "C08":
         jobs.append({"cfg": "MC_sched_live.cfg", "r1only": True})
+        jobs.append({"kind": "introspect"})
     nr3 = (8 if thorough else 3) if pid == "C08" else (4 if thorough else 2)
     for k in range(nr3):
         jobs.append({"r3": True, "seed": common.seed() * 1000 + k + (1 if pid == "C08" else 501), "behaviours": 1200 if thorough else 400,
